@@ -540,6 +540,14 @@ def short_containers(prog, ctx, wrappers):
                                 guarded = True
                         if not guarded and uniform_exit(fn, g_r, base['name'], r_bound, n.get('l') or 0, top_r):
                             guarded = True
+                        if not guarded and fn.body.get('k') == 'Compound':
+                            # ... or the process was left, at the top level in front of the read, when that flag was false
+                            flags_ = uniform_flags(fn, base['name'], n.get('l') or 0)
+                            for st_ in fn.body['body']:
+                                if st_['k'] == 'If' and (st_.get('l') or 0) < (n.get('l') or 0) and g_r.always_exits(st_['then']):
+                                    c_ = strip_casts(st_['cond'])
+                                    if c_.get('k') == 'Un' and c_.get('op') == '!' and strip_casts(strip(c_['e'])).get('name') in flags_:
+                                        guarded = True
                     found.append((n, base['name'], r_here, r_bound, guarded))
         rec(fn.body, [], [])
         # a literal column read p[r][k] needs a test of the width of the rows of p (any row-length test of p that leads to the
@@ -565,6 +573,40 @@ def short_containers(prog, ctx, wrappers):
                     ctx.decide(R, inst_, fn, ok_, 'column %s of the rows of `%s` is read after a test of the row lengths' % (kcol, b_['name']),
                                '%s is read although nothing tests the length of the rows of `%s`: a ragged or transposed table is read out of bounds' % (show(e_)[:40], b_['name']),
                                witness={'reproducer': 'Integrate_Gauss_Legendre({1.0, 1.0}, {{0.2,0.5},{}}) reads element 1 of an empty row'} if not ok_ else None, line=e_.get('l'))
+        # a table that is checked for equal row lengths must not be answered before that check: a normal return placed in
+        # front of the uniform-length loop is evaluated on ragged shapes (two and three rows of different lengths)
+        for pname_ in pn:
+            lu = uniform_exit(fn, g_r, pname_, '0', 10 ** 9, top_r)
+            if not lu:
+                continue
+            if not g_r.returns and not g_r.sites:
+                g_r.run()
+            early = [(r_, reach_) for r_, reach_ in g_r.returns if (r_.get('l') or 0) < lu]
+            bad_ = None
+            undec_ = False
+            for r_, reach_ in early:
+                for shape in ((0, 1), (1, 0), (0, 2), (2, 1), (1, 1, 0), (0, 1, 1), (2, 2, 1)):
+                    row = {'len(%s)' % pname_: len(shape)}
+                    for i_, n_ in enumerate(shape):
+                        row['len(%s[%d])' % (pname_, i_)] = n_
+                    try:
+                        if G.CEval(prog, row, None, {}).formula(reach_):
+                            bad_ = (r_, shape)
+                            break
+                    except (Undecided, KeyError, TypeError):
+                        undec_ = True
+                if bad_:
+                    break
+            inst_ = '%s:%s:early-return' % (fn.q.replace(L, '') + '/%d' % len(fn.params), pname_)
+            if bad_:
+                ctx.violated(R, inst_, fn, 'the function returns normally at line %s for a table with row lengths %s: the return lies in front of the loop that compares '
+                             'the row lengths, so a ragged table is answered instead of rejected' % (bad_[0].get('l'), list(bad_[1])),
+                             witness={'row_lengths': list(bad_[1])}, line=bad_[0].get('l'))
+            elif undec_ and early:
+                ctx.notes.append('C10.f: %s: an early return depends on something other than the shape of the table (not judged)' % inst_)
+            else:
+                ctx.holds(R, inst_, fn, 'no ragged table (two or three rows of different lengths) reaches a return in front of the uniform-length check (%d early return(s))' % len(early),
+                          line=lu)
         uniq = {}
         for ent in found:
             key_ = (ent[1], ent[2])
@@ -724,7 +766,7 @@ def uniform_exit(fn, g, pname, r_ref, before_line, top=None):
                 continue
             sides = {txt(c['lhs']), txt(c['rhs'])}
             if sides == {'%s[%s].size()' % (pname, cname), '%s[%s].size()' % (pname, r_ref)}:
-                return True
+                return lp.get('l') or 1
     return False
 
 
